@@ -17,7 +17,11 @@
 
 package version
 
-import "github.com/lindb/lindb/kv/table"
+import (
+	"sort"
+
+	"github.com/lindb/lindb/kv/table"
+)
 
 // level stores sst files of level
 type level struct {
@@ -54,6 +58,11 @@ func (l *level) getFiles() []*FileMeta {
 	for _, v := range l.files {
 		values = append(values, v)
 	}
+	// NOTE: keep a stable order(oldest file first), readers which merge the values of one key from several files
+	// must not depend on the map iteration order(same lookup gives same result, the newest file is applied last).
+	sort.Slice(values, func(i, j int) bool {
+		return values[i].GetFileNumber() < values[j].GetFileNumber()
+	})
 	return values
 }
 
